@@ -102,6 +102,7 @@ func run(args []string, stdout io.Writer) error {
 		if err != nil {
 			return fmt.Errorf("error getting NAL units: %w", err)
 		}
+		nalus = dropShortNalus(nalus, o.codec)
 		frames, err := findAnnexBFrames(nalus, o.codec)
 		if err != nil {
 			return fmt.Errorf("error finding frames: %w", err)
@@ -205,6 +206,7 @@ func parseProgressiveMp4(w io.Writer, f *mp4.File, maxNrSamples int, codec strin
 		if err != nil {
 			return err
 		}
+		nalus = dropShortNalus(nalus, codec)
 		switch codec {
 		case "avc", "h.264", "h264":
 			if avcSPS == nil {
@@ -293,6 +295,7 @@ func parseFragmentedMp4(w io.Writer, f *mp4.File, maxNrSamples int, codec string
 		if err != nil {
 			return err
 		}
+		nalus = dropShortNalus(nalus, codec)
 		switch codec {
 		case "avc", "h.264", "h264":
 			err = printAVCNalus(w, avcSPS, nalus, i+1, s.PresentationTime(), seiLevel, parameterSets, nrRaw)
@@ -493,6 +496,22 @@ func findAnnexBFrames(nalus [][]byte, codec string) ([][][]byte, error) {
 		frames = append(frames, nalus[frameStart:])
 	}
 	return frames, nil
+}
+
+// dropShortNalus removes NAL units that are shorter than the NAL unit header of the codec
+// (e.g. empty units between consecutive start codes), since they have no type to list.
+func dropShortNalus(nalus [][]byte, codec string) [][]byte {
+	minLen := 1
+	if codec == "hevc" || codec == "h.265" || codec == "h265" {
+		minLen = 2
+	}
+	kept := nalus[:0]
+	for _, nalu := range nalus {
+		if len(nalu) >= minLen {
+			kept = append(kept, nalu)
+		}
+	}
+	return kept
 }
 
 func isAvcAudNalu(nalu []byte) bool {
